@@ -328,6 +328,125 @@ func runC03(c *Ctx) {
 		c.verdict(okArg, c.nm(fn)+" | filter store new tip = PrevBlock of the header being removed", c.P.Pos(fn.Pos()), "RollbackLastBlock(&header.PrevBlock)", "filter store is rolled back to something other than the removed header's PrevBlock", c.ats(fr)...)
 	})
 
+	c.rule("C03.G4", "VerifyBasicBlockFilter (the arbiter when peers disagree): every output script of every non-coinbase transaction must be matched by the filter, a miss returning an error, and the only exemptions are an empty script and a script whose first byte is OP_RETURN; only the transaction at index 0 is skipped", func() {
+		fn := c.fn("neutrino.VerifyBasicBlockFilter")
+		txOut := c.field(pWire, "MsgTx", "TxOut")
+		pk := c.field(pWire, "TxOut", "PkScript")
+		matchM := c.method(pGcs, "Filter", "Match")
+		// per-output start points
+		var starts []start
+		var outHeader *ssa.BasicBlock
+		ir.Instrs(fn, func(in ssa.Instruction) {
+			ia, ok := in.(*ssa.IndexAddr)
+			if ok && isLoadOfPath(ia.X, txOut) {
+				starts = append(starts, afterInstr(c, in))
+				outHeader = ir.LoopHeaderOf(in.Block())
+			}
+		})
+		if outHeader == nil {
+			c.fail(c.nm(fn)+" | output loop", c.P.Pos(fn.Pos()), "no loop over tx.MsgTx().TxOut found")
+			return
+		}
+		// must-match calls: Match on an output script whose miss leaves the function
+		isPk := func(v ssa.Value) bool { return loadsField(pk)(v) }
+		var must []ssa.Instruction
+		for _, m := range find(fn, callTo(matchM)) {
+			a := argsOf(m)
+			if len(a) < 2 || !isPk(a[1]) {
+				continue
+			}
+			g := boolIs("match", []ssa.Instruction{m}, 0, true)
+			if len(g.sites) == 0 {
+				continue
+			}
+			leaves := true
+			be := ir.BackEdges(fn)
+			for _, s := range g.sites {
+				ir.WalkEdge(s.br.Other(), nil, func(in ssa.Instruction) bool {
+					blk := in.Block()
+					if in == blk.Instrs[len(blk.Instrs)-1] {
+						for e := range be {
+							if e.From == blk {
+								leaves = false
+							}
+						}
+					}
+					if r, ok := in.(*ssa.Return); ok {
+						if ir.IsNil(ir.RetVal(r, 1)) {
+							leaves = false
+						}
+						return false
+					}
+					return true
+				})
+			}
+			if leaves {
+				must = append(must, m)
+			}
+		}
+		isMust := func(in ssa.Instruction) bool {
+			for _, m := range must {
+				if m == in {
+					return true
+				}
+			}
+			return false
+		}
+		// tabled exemptions
+		cut := ir.Cut{}
+		nEx := 0
+		ir.Instrs(fn, func(in ssa.Instruction) {
+			b, ok := in.(*ssa.BinOp)
+			if !ok || b.Op != token.EQL {
+				return
+			}
+			k, isC := ir.ConstInt(b.Y)
+			if !isC {
+				return
+			}
+			exempt := false
+			if call, ok := b.X.(*ssa.Call); ok && isBuiltin("len")(call) && isPk(call.Call.Args[0]) && k == 0 {
+				exempt = true // empty script
+			}
+			if ld, ok := b.X.(*ssa.UnOp); ok && k == 0x6a {
+				if ia, ok := ld.X.(*ssa.IndexAddr); ok && isPk(ia.X) {
+					if i0, isC0 := ir.ConstInt(ia.Index); isC0 && i0 == 0 {
+						exempt = true // first byte is OP_RETURN
+					}
+				}
+			}
+			if exempt {
+				for _, tb := range ir.TrueBranches(b) {
+					cut[tb.Edge()] = true
+					nEx++
+				}
+			}
+		})
+		c.verdict(len(must) >= 1 && nEx == 2, c.nm(fn)+" | one must-match check, exemptions = {empty script, first byte OP_RETURN}", c.P.Pos(fn.Pos()), fmt.Sprintf("%d must-match site(s), %d exemption edges", len(must), nEx), fmt.Sprintf("expected a filter.Match whose miss returns an error and exactly the two BIP-158 exemptions; found %d must-match site(s), %d exemption edges", len(must), nEx), c.ats(must)...)
+		c.mustFollowIter(fn, "each output of a non-coinbase transaction", starts, isMust, "filter.Match(key, txOut.PkScript) with error on a miss", cut, 1)
+		// only tx index 0 is skipped: the outer skip compares the index with 0
+		txs := c.method(pBtcutil, "Block", "Transactions")
+		okSkip := false
+		ir.Instrs(fn, func(in ssa.Instruction) {
+			b, ok := in.(*ssa.BinOp)
+			if !ok || b.Op != token.EQL {
+				return
+			}
+			if k, isC := ir.ConstInt(b.Y); isC && k == 0 {
+				if phi, ok := b.X.(*ssa.BinOp); ok || b.X != nil {
+					_ = phi
+					h := ir.LoopHeaderOf(in.Block())
+					if h != nil && h != outHeader && len(find(fn, callTo(txs))) == 1 {
+						if _, isLen := b.X.(*ssa.Call); !isLen {
+							okSkip = true
+						}
+					}
+				}
+			}
+		})
+		c.verdict(okSkip, c.nm(fn)+" | only the coinbase (index 0) is skipped", c.P.Pos(fn.Pos()), "idx == 0 skip present", "the coinbase skip is not `idx == 0`")
+	})
+
 	c.rule("C03.W1", "only the tabled functions write or roll back the filter-header store", func() {
 		c.whoMay("FilterHeaderStore.{WriteHeaders,RollbackLastBlock}", callTo(fhs("WriteHeaders"), fhs("RollbackLastBlock")), []string{
 			fnWriteCFH, fnRollBack,
